@@ -32,7 +32,7 @@ def concerns(ev, verdict):
             s.add("C10")
         if p.startswith("denote-") or p.startswith("json-"):
             s.add("C11")
-        if p in ("registry-visibility", "valid-registration-rejected", "invalid-name-accepted"):
+        if p in ("registry-visibility", "valid-registration-rejected", "invalid-name-accepted", "invalid-shape-accepted"):
             s.add("C20")
         if p in ("input-modified", "binds-modified"):
             s.add("C07")
